@@ -9,7 +9,9 @@ MAPS = [(None, (), (), False),
         ("p.Quote => blockquote > p:fresh\ncomment-reference => sup", (), (), True),
         ("p.Quote => !\nr.Emph => !", ("Quote",), ("Emph",), False),
         ("p.Heading1 => h1.title\nr.Strong => b\ncomment-reference => span.c\np.Normal => !", ("Normal",), (), True),
-        ("b => b\ni => i\nu => u\nstrike => del\np => div", (), (), False)]
+        ("b => b\ni => i\nu => u\nstrike => del\np => div", (), (), False),
+        # text mapped onto elements that are void only when EMPTY (hr, input, br, img): their text is live text like any other
+        ("p.Quote => hr:fresh\nr.Emph => input.key\np.Heading1 => br\nr.Strong => img.x", (), (), False)]
 TAG = re.compile(r"<[^>]*>")
 LIVE_HEADER = """From Mammoth Require Import LiveSpec EndToEndSpec NotesSpec RawSpec CommentsSpec.
 Definition src_of (c : list (str * dpart) * bool * list (str * img_src) * api_opts * option (str * list str) * option (str * list str)) : source :=
